@@ -77,6 +77,7 @@ type symWrite struct {
 type Iface struct {
 	dyn types.Type
 	val Value
+	styp types.Type // static interface type of a nil value, when known
 }
 
 // Func is a function value.
@@ -107,6 +108,14 @@ type AbsObj struct {
 	fam  bool
 	idx  []*Term
 	nilT *Term // "this element is nil"
+	// a shape that is one of two abstract shapes depending on a condition (an element of a
+	// symbolic array of shapes that was overwritten at a symbolic index)
+	alt *absAlt
+}
+
+type absAlt struct {
+	c    *Term
+	a, b *AbsObj
 }
 
 // Str is a string value.
@@ -333,7 +342,7 @@ func zeroValue(t types.Type) Value {
 	case *types.Slice:
 		return &SliceV{off: mkInt(0), len: mkInt(0), cap: mkInt(0), elem: u.Elem()}
 	case *types.Interface:
-		return &Iface{}
+		return &Iface{styp: t}
 	case *types.Signature:
 		return &Func{}
 	case *types.Map:
@@ -428,6 +437,17 @@ func iteValue(c *Term, a, b Value) (Value, bool) {
 			return &Opaque{typ: ob.typ, tag: "merged"}, true
 		}
 	}
+	// a nil interface value merged with an abstract shape: nil is the abstract shape that is nil
+	if ia, ok := a.(*Iface); ok && ia.dyn == nil {
+		if ob, ok := b.(*AbsObj); ok {
+			a = &AbsObj{name: "nil", typ: ob.typ, dim: ob.dim, nilT: tTrue}
+		}
+	}
+	if ib, ok := b.(*Iface); ok && ib.dyn == nil {
+		if oa, ok := a.(*AbsObj); ok {
+			b = &AbsObj{name: "nil", typ: oa.typ, dim: oa.dim, nilT: tTrue}
+		}
+	}
 	switch x := a.(type) {
 	case *Term:
 		y, ok := b.(*Term)
@@ -494,6 +514,16 @@ func iteValue(c *Term, a, b Value) (Value, bool) {
 				idx[i] = mkIte(c, x.idx[i], y.idx[i])
 			}
 			return &AbsObj{name: x.name, typ: x.typ, dim: x.dim, fam: true, idx: idx, stamp: x.stamp, nilT: mkIte(c, x.nilT, y.nilT)}, true
+		}
+		if y, ok := b.(*AbsObj); ok && x.dim == y.dim {
+			nx, ny := x.nilT, y.nilT
+			if nx == nil {
+				nx = tFalse
+			}
+			if ny == nil {
+				ny = tFalse
+			}
+			return &AbsObj{name: "alt", typ: x.typ, dim: x.dim, stamp: x.stamp, nilT: mkIte(c, nx, ny), alt: &absAlt{c: c, a: x, b: y}}, true
 		}
 		return nil, false
 	case *Func:
